@@ -248,6 +248,10 @@ func Ite(c, a, b Term) Term {
 	if a.S == b.S {
 		return a
 	}
+	if a.Sort == SBool && (len(a.Conj) > 1 || len(a.Imp) == 2 || len(b.Conj) > 1 || len(b.Imp) == 2) {
+		// a boolean case split over structured formulas keeps its structure (goal splitting, hypothesis slicing)
+		return And(Implies(c, a), Implies(Not(c), b))
+	}
 	return App(a.Sort, "ite", c, a, b)
 }
 
